@@ -504,6 +504,19 @@ fn backpressure(res: &mut PartResult, buffer: Option<usize>) {
         TcpStream::from_raw_fd(fd)
     };
     slow.set_nonblocking(true).unwrap();
+    // two more stalled clients and two more reading clients: whatever order the exporter visits its clients in, some
+    // reading client comes after some stalled one
+    let mut extra_slow: Vec<TcpStream> = Vec::new();
+    let mut extra_fast: Vec<Client> = Vec::new();
+    for i in 0..4 {
+        let c = TcpStream::connect(ex.addr).unwrap();
+        c.set_nonblocking(true).unwrap();
+        if i % 2 == 0 {
+            extra_slow.push(c);
+        } else {
+            extra_fast.push(Client { stream: Some(c), buf: vec![], metadata_at_connect: vec![], expected: vec![], open: true, ever: true });
+        }
+    }
     let fast = TcpStream::connect(ex.addr).unwrap();
     fast.set_nonblocking(true).unwrap();
     let _ = barrier(&ex.rec);
@@ -520,6 +533,9 @@ fn backpressure(res: &mut PartResult, buffer: Option<usize>) {
             return;
         }
         drain(&mut fast_c);
+        for c in extra_fast.iter_mut() {
+            drain(c);
+        }
     }
     let mut slow_c = Client { stream: Some(slow), buf: vec![], metadata_at_connect: vec![], expected: vec![], open: true, ever: true };
     // now the slow client reads everything; keep nudging so that the exporter drives its connection
@@ -528,15 +544,26 @@ fn backpressure(res: &mut PartResult, buffer: Option<usize>) {
         emit(&ex.rec, 0, s);
         let _ = barrier(&ex.rec);
         drain(&mut fast_c);
+        for c in extra_fast.iter_mut() {
+            drain(c);
+        }
     }
     // long grace period before judging (Nagle + delayed ACK can hold written frames back for up to 200 ms)
     let t_end = Instant::now();
     while t_end.elapsed() < Duration::from_millis(600) {
         drain(&mut slow_c);
         drain(&mut fast_c);
+        for c in extra_fast.iter_mut() {
+            drain(c);
+        }
         std::thread::sleep(Duration::from_millis(10));
     }
-    for (name, c, must_have_all) in [("fast", &fast_c, true), ("slow", &slow_c, false)] {
+    drop(extra_slow);
+    let mut judged: Vec<(&str, &Client, bool)> = vec![("fast", &fast_c, true), ("slow", &slow_c, false)];
+    for c in &extra_fast {
+        judged.push(("fast(extra)", c, true));
+    }
+    for (name, c, must_have_all) in judged {
         match pbwire::split_stream(&c.buf) {
             Err(e) => res.violation("stream-is-not-whole-event-frames", format!("{} client: {}", name, e), json!({"backpressure": true})),
             Ok((frames, _trailing)) => {
